@@ -374,6 +374,10 @@ def run(ctx):
     ii = F.one_body(r"^<selium::keep_alive::backoff_strategy::BackoffStrategy as core::iter::traits::collect::IntoIterator>::into_iter$")
     ctx.touch(nx, ii)
     c13.count_shape(ctx, F, nx, ii)
+    bs = [b_ for p_, b_ in sorted(F.bodies.items()) if p_.startswith("selium::keep_alive::backoff_strategy::BackoffStrategy::with_") and "{closure" not in p_]
+    for b_ in bs:
+        dflt = [c for c in b_.calls() if strip_generics(c.callee) == "core::default::Default::default" or (c.name() in ("default", "new") and "backoff_strategy" in (c.callee + (c.t.get("resolved") or "")))]
+        ctx.check(not dflt, "C12.D1.builders-preserve", "builder-resets:%s" % b_.name, "BackoffStrategy::%s keeps the attempt budget and the other settings it is not about" % b_.name, (dflt or [b_])[0].span)
     # "messages published after recovery are delivered": the re-registered subscriber is a new entry behind the dead one in the fan-out
     sweeps.fanout_sweep(ctx, F, "C12.D6", "poll_flush")
     d4(ctx, F)
